@@ -22,6 +22,7 @@ import pickle
 import shutil
 import sys
 import unittest.mock
+import weakref
 
 import numpy as np
 
@@ -29,18 +30,20 @@ ID = 'C17'
 
 MANIFEST = dict(
     technique='explicit-state search over crash points: every write position of every reachable output-tree state is a kill point for the real parse_folder.main() (in-process fault injection at open/imwrite), up to k successive crashes, x output subsets x page-id sets; oracle = uninterrupted run',
-    text='Bounded exhaustive fault enumeration: for each configuration the state graph of output trees is explored breadth-first; in every reachable state the real tool is run with a kill injected before each of its writes (and once to completion), up to 2 (quick) / 3 (thorough) successive crashes on 3 pages (one of them without lines); from every reached state an uninterrupted resume must end with exactly the files of an uninterrupted run, return normally, and not re-process pages that were already complete. Configurations: all 31 non-empty subsets of {xml, render, logits, alto, lines} x 4 page-id sets (plain, dotted, containing ".xml." / ".jpg."). Added: expected file names of an uninterrupted run, and a kill before every write of a model-free batch followed by a resume with the real command-line tool and --process-count 3 (2-4 thorough). PAGE XML, rendering and logits written to one shared output directory.',
-    note='Kills happen between writes (no torn files); 2 pages; lmdb line output not covered; runs are in-process (the tool\'s own argument parsing, parser construction and write path are the real ones).',
+    text='Bounded exhaustive fault enumeration: for each configuration the state graph of output trees is explored breadth-first; in every reachable state the real tool is run with a kill injected before each of its writes (and once to completion), up to 2 (quick) / 3 (thorough) successive crashes on 3 pages (one of them without lines); from every reached state an uninterrupted resume must end with exactly the files of an uninterrupted run, return normally, and not re-process pages that were already complete. Configurations: all 31 non-empty subsets of {xml, render, logits, alto, lines} x 4 page-id sets (plain, dotted, containing ".xml." / ".jpg."). Added: expected file names of an uninterrupted run, and a kill before every write of a model-free batch followed by a resume with the real command-line tool and --process-count 3 (2-4 thorough). PAGE XML, rendering and logits written to one shared output directory. Line crops stored in an LMDB environment (every subset with crops and at least one per-page output x 2 (quick) / 4 page-id sets): the start of every write transaction is a kill point, the state is the set of committed records, so crops that are handed over but committed later than the page\'s completion record are lost by a kill and never written by the resume.',
+    note='Kills happen between writes (no torn files); 3 pages; lmdb line output only in the single-process loop and together with at least one per-page output; runs are in-process (the tool\'s own argument parsing, parser construction and write path are the real ones).',
     ref='3/C17')
 
 KINDS = ['xml', 'render', 'logits', 'alto', 'lines']
 ID_SETS = [['p1', 'p2', 'p3'], ['a', 'a.b', 'a.b.c'], ['x', 'x.xml.y', 'x.xml'], ['scan', 'scan.jpg.v2', 'scan.jpg']]
 QUICK_SUBSETS = [[0, 1, 2, 3, 4], [0], [0, 1], [0, 2], [0, 3], [0, 4], [2, 3], [4]]
-BOUNDS = {'quick': dict(crashes_full=2, crashes_other=2, pages=3, procs=[3]), 'thorough': dict(crashes_full=3, crashes_other=3, pages=3, procs=[2, 3, 4])}
+BOUNDS = {'quick': dict(crashes_full=2, crashes_other=2, pages=3, procs=[3], lmdb_ids=[0, 2]),
+          'thorough': dict(crashes_full=3, crashes_other=3, pages=3, procs=[2, 3, 4], lmdb_ids=[0, 1, 2, 3])}
 MP_SUBSET = [0, 1, 4]          # xml, render, line crops: the outputs of a configuration without an OCR model
 MP_WRITES = 9                   # writes of an uninterrupted run of that configuration on the three pages (checked)
 BOUNDS['replay'] = BOUNDS['quick']
 TMP = '/verif/.cache/tmp'
+LMDB_DIR = 'lines_lmdb'       # name of the line-crop output folder of a world whose crops go into an LMDB environment
 PAGE_LINES = [[(10, 8, ['a', '_', 'b', 'ab', 'c']), (30, 20, ['ba', '_', 'bc', 'bc', 'a'])], [(12, 10, ['ab', 'ab', '_', 'ba'])], []]
 
 
@@ -76,6 +79,12 @@ def shards(tier):
     for sub in ([0, 1], [0, 2], [1, 2], [0, 1, 2], [0, 1, 2, 3, 4]):
         for ii in (0, 2):
             out.append({'subset': sub, 'ids': ii, 'pages': BOUNDS[tier]['pages'], 'shared': 1})
+    # the second sink of the line crops: an LMDB environment (OUTPUT_LINE_PATH containing 'lmdb') - every subset that asks for the crops
+    # next to at least one per-page output (crops alone leave no record of completion with either sink: the recorded finding)
+    for sub in subsets(tier):
+        if 4 in sub and len(sub) > 1:
+            for ii in BOUNDS[tier]['lmdb_ids']:
+                out.append({'subset': sub, 'ids': ii, 'pages': BOUNDS[tier]['pages'], 'lmdb': 1})
     # resume in several worker processes (the model-free stages, which is what --process-count supports): one shard per kill point
     for n in BOUNDS[tier]['procs']:
         for k in range(MP_WRITES + 1):
@@ -109,6 +118,8 @@ class World:
 
     def dir_of(self, kind):
         """output directory of a kind; in a 'shared' world PAGE XML, rendering and logits (three different extensions) go to ONE directory"""
+        if kind == 'lines' and getattr(self, 'lmdb', False):
+            return LMDB_DIR              # an OUTPUT_LINE_PATH with 'lmdb' in it: the crops become records of one LMDB environment
         return 'shared' if getattr(self, 'shared', False) and kind in ('xml', 'render', 'logits') else kind
 
     def argv(self):
@@ -148,13 +159,49 @@ class World:
             gate(path)
             return real_imwrite(path, *a, **kw)
 
+        # an LMDB environment under the output folders: its unit of writing is the write TRANSACTION (all or nothing), so the start of
+        # every write transaction is a position between two writes like any other; what was handed to the tool but not yet committed
+        # dies with the process (the harness closes the environments a run leaves open, as the end of the process would)
+        envs = []
+        res = {'killed': False, 'error': None, 'lmdb_kill': False}
+
+        class Env:
+            def __init__(self, path, *a, **kw):
+                self._path = str(path)
+                self._env = real_env(path, *a, **kw)
+                envs.append(weakref.ref(self))      # the tool decides how long an environment lives (it may rely on it being closed when dropped)
+
+            def begin(self, *a, **kw):
+                if kw.get('write', a[2] if len(a) > 2 else False):
+                    try:
+                        gate(os.path.join(self._path, 'data.mdb'))
+                    except Kill:
+                        res['lmdb_kill'] = True
+                        raise
+                return self._env.begin(*a, **kw)
+
+            def __getattr__(self, name):
+                return getattr(self._env, name)
+
+            def __enter__(self):
+                return self
+
+            def __exit__(self, *a):
+                self._env.close()
+
+        patches = [unittest.mock.patch('builtins.open', open_w), unittest.mock.patch.object(cv2, 'imwrite', imwrite_w)]
+        if getattr(self, 'lmdb', False):
+            import lmdb
+            real_env = lmdb.Environment
+            patches += [unittest.mock.patch.object(lmdb, 'open', Env), unittest.mock.patch.object(lmdb, 'Environment', Env)]
+
         buf = io.StringIO()
-        res = {'killed': False, 'error': None}
         old_argv = sys.argv
         sys.argv = self.argv()
         try:
-            with contextlib.redirect_stdout(buf), unittest.mock.patch('builtins.open', open_w), \
-                    unittest.mock.patch.object(cv2, 'imwrite', imwrite_w):
+            with contextlib.redirect_stdout(buf), contextlib.ExitStack() as stack:
+                for p in patches:
+                    stack.enter_context(p)
                 parse_folder.main()
         except Kill:
             res['killed'] = True
@@ -165,6 +212,9 @@ class World:
             res['error'] = f'{type(e).__name__}: {e}'
         finally:
             sys.argv = old_argv
+            for env in envs:
+                if env() is not None:
+                    env()._env.close()
         res['writes'] = writes
         res['stdout'] = buf.getvalue()
         return res
@@ -173,6 +223,10 @@ class World:
     def snapshot(self):
         snap = {}
         for r, _, files in os.walk(self.out):
+            if 'data.mdb' in files:
+                # an LMDB environment: the state is its committed records (key -> value), not the bytes of its page file
+                snap.update((os.path.join(os.path.relpath(r, self.out), k), v) for k, v in read_lmdb(r).items())
+                continue
             for fn in files:
                 p = os.path.join(r, fn)
                 with open(p, 'rb') as f:
@@ -181,14 +235,38 @@ class World:
 
     def restore(self, snap):
         shutil.rmtree(self.out, ignore_errors=True)
+        records = {}
         for rel, data in snap.items():
             p = os.path.join(self.out, rel)
             os.makedirs(os.path.dirname(p), exist_ok=True)
+            if getattr(self, 'lmdb', False) and rel.split(os.sep)[0] == LMDB_DIR:
+                records[os.path.basename(rel)] = data
+                continue
             with open(p, 'wb') as f:
                 f.write(data)
 
+        if records:
+            import lmdb
+            env = lmdb.open(os.path.join(self.out, LMDB_DIR), map_size=1 << 28)
+            try:
+                with env.begin(write=True) as txn:
+                    for k in sorted(records):
+                        txn.put(k.encode(), records[k])
+            finally:
+                env.close()
+
     def close(self):
         shutil.rmtree(self.root, ignore_errors=True)
+
+
+def read_lmdb(path):
+    import lmdb
+    env = lmdb.open(path, readonly=True, lock=False)
+    try:
+        with env.begin() as txn:
+            return {bytes(k).decode(): bytes(v) for k, v in txn.cursor()}
+    finally:
+        env.close()
 
 
 def canon_file(rel, data):
@@ -244,13 +322,15 @@ def complete_pages(state, ref, ids):
 def evaluate(world, hist, ref, ctx, case):
     """state reached by `hist` is on disk; run the final uninterrupted resume and check all clauses"""
     K = f'{ID}/{"+".join(KINDS[k] for k in world.subset)}' + ('/parser-without-ocr-fed-with-saved-logits' if getattr(world, 'input_logits', None) else '') + \
-        ('/xml-render-logits-in-one-directory' if getattr(world, 'shared', False) else '')
+        ('/xml-render-logits-in-one-directory' if getattr(world, 'shared', False) else '') + \
+        ('/line-crops-in-lmdb' if getattr(world, 'lmdb', False) else '')
     before = canon(world.snapshot())
     done_before = complete_pages(before, ref, world.ids)
     r = world.run(None)
     ctx.executed()
     after = canon(world.snapshot())
     desc = (f'outputs {[KINDS[k] for k in world.subset]}' + (' (PAGE XML, rendering and logits written to one directory)' if getattr(world, 'shared', False) else '') +
+            (' (line crops written as records of an LMDB environment; a write = one committed transaction)' if getattr(world, 'lmdb', False) else '') +
             f', page ids {world.ids}, crash points {hist} (kill before the k-th write of each run), '
             f'then an uninterrupted resume')
     if r['error']:
@@ -262,8 +342,8 @@ def evaluate(world, hist, ref, ctx, case):
         missing = sorted(set(dict(ref)) - set(dict(after)))
         extra = sorted(set(dict(after)) - set(dict(ref)))
         differ = sorted(rel for rel in dict(ref) if rel in dict(after) and dict(after)[rel] != dict(ref)[rel])
-        kinds = sorted({m.split(os.sep)[0] if m.split(os.sep)[0] != 'shared' else {'.xml': 'xml', '.jpg': 'render'}.get(os.path.splitext(m)[1], 'logits')
-                        for m in missing + differ + extra})
+        kinds = sorted({{LMDB_DIR: 'lines'}.get(m.split(os.sep)[0], m.split(os.sep)[0]) if m.split(os.sep)[0] != 'shared'
+                        else {'.xml': 'xml', '.jpg': 'render'}.get(os.path.splitext(m)[1], 'logits') for m in missing + differ + extra})
         ctx.violation('every-output-present-and-equal', f'{K}/incomplete-after-resume/{"+".join(kinds)}',
                       f'{desc}: missing {missing}, different {differ}, unexpected {extra}', case)
         return False
@@ -302,6 +382,9 @@ def explore(shard, ctx, tier, only_hist=None):
         if shard.get('shared'):
             world.shared = True
             ctx.tag('several-output-kinds-in-one-directory')
+        if shard.get('lmdb'):
+            world.lmdb = True
+            ctx.tag('line-crops-in-lmdb')
     try:
         r0 = world.run(None)
         ctx.executed()
@@ -316,7 +399,7 @@ def explore(shard, ctx, tier, only_hist=None):
             for k in shard['subset']:
                 kind = KINDS[k]
                 if kind == 'lines':
-                    expected |= {os.path.join('lines', f'{pid}-r1-l{j + 1:03d}.jpg') for j in range(nl)}
+                    expected |= {os.path.join(world.dir_of('lines'), f'{pid}-r1-l{j + 1:03d}.jpg') for j in range(nl)}
                 else:
                     expected.add(os.path.join(world.dir_of(kind), pid + {'xml': '.xml', 'render': '.jpg', 'logits': '.logits', 'alto': '.xml'}[kind]))
         have = {rel for rel, _ in ref}
@@ -338,17 +421,20 @@ def explore(shard, ctx, tier, only_hist=None):
             nxt = []
             for key in frontier:
                 snap, hist = seen[key]
-                ctx.state((tuple(shard['subset']), shard['ids'], bool(shard.get('inlogits')), bool(shard.get('shared')), key))
+                ctx.state((tuple(shard['subset']), shard['ids'], bool(shard.get('inlogits')), bool(shard.get('shared')), key) + (('lmdb',) if shard.get('lmdb') else ()))
                 # the final resume from this state
                 world.restore(snap)
                 ctx.begin_case(dict(shard, hist=hist))
                 evaluate(world, hist, ref, ctx, dict(shard, hist=hist))
                 if hist:
-                    ctx.nontrivial((tuple(shard['subset']), shard['ids'], key), 'interrupted-states')
+                    ctx.nontrivial((tuple(shard['subset']), shard['ids'], key) + (('lmdb',) if shard.get('lmdb') else ()), 'interrupted-states')
                     partial = [p for p in world.ids if p not in complete_pages(key, ref, world.ids)
                                and any(page_of(rel, world.ids) == p for rel, _ in key)]
                     if partial:
                         ctx.tag('state-with-partially-written-page')
+                    if shard.get('lmdb') and 0 < len(complete_pages(key, ref, world.ids)) < len(world.ids):
+                        # some pages carry their completion record (with their crops committed) and others do not: the resume has to tell them apart
+                        ctx.tag('lmdb-state-with-complete-and-incomplete-pages')
                 ctx.outcome((len(key), tuple(complete_pages(key, ref, world.ids))))
                 if level == depth:
                     continue
@@ -368,6 +454,8 @@ def explore(shard, ctx, tier, only_hist=None):
                     ctx.executed()
                     if not r['killed']:
                         continue
+                    if r.get('lmdb_kill'):
+                        ctx.tag('kill-before-lmdb-transaction')
                     s2 = world.snapshot()
                     k2 = canon(s2)
                     if k2 not in seen:
@@ -459,7 +547,7 @@ def run_shard(shard, ctx, tier):
 def check_case(case, ctx):
     if 'mp' in case:
         return explore_mp(case, ctx)
-    explore({'subset': case['subset'], 'ids': case['ids'], 'pages': case.get('pages', 2), 'inlogits': case.get('inlogits', 0), 'shared': case.get('shared', 0)}, ctx, 'replay',
+    explore({'subset': case['subset'], 'ids': case['ids'], 'pages': case.get('pages', 2), 'inlogits': case.get('inlogits', 0), 'shared': case.get('shared', 0), 'lmdb': case.get('lmdb', 0)}, ctx, 'replay',
             only_hist=case['hist'])
 
 
@@ -469,7 +557,8 @@ def describe(tier):
                 'run) + the final resume from every state; configurations = output subsets x 4 page-id sets. states = distinct (configuration, '
                 'tree); transitions = runs of the real main(). Non-trivial: states reached by at least one kill.',
         'bounds': dict(BOUNDS[tier], subsets=len(subsets(tier)), id_sets=ID_SETS),
-        'alphabets': {'outputs': KINDS, 'page_ids': ID_SETS},
+        'alphabets': {'outputs': KINDS, 'page_ids': ID_SETS, 'line_crop_sink': ['jpg files', 'LMDB environment (kill points = its write transactions)']},
         'assumptions': ['a kill leaves every earlier write complete and the interrupted one absent (no torn files)'],
-        'min_nontrivial': 20, 'required_tags': ['several-output-kinds-in-one-directory', 'interrupted-states', 'state-with-partially-written-page', 'multi-process-resume', 'fewer-pages-left-than-worker-processes', 'parser-without-ocr-fed-with-saved-logits'],
+        'min_nontrivial': 20, 'required_tags': ['several-output-kinds-in-one-directory', 'interrupted-states', 'state-with-partially-written-page', 'multi-process-resume', 'fewer-pages-left-than-worker-processes', 'parser-without-ocr-fed-with-saved-logits',
+                                                 'line-crops-in-lmdb', 'kill-before-lmdb-transaction', 'lmdb-state-with-complete-and-incomplete-pages'],
     }
